@@ -3,7 +3,7 @@ from engines.arena_prop import run_arena_property
 
 def run(ctx):
     return run_arena_property(ctx, ["BumpProof.Props.C10", "BumpProof.Props.Hist@C10", "BumpProof.Props.Hist2@C10", "BumpProof.Props.Targets@C10"],
-        runs_quick=[('general', 150, 100), ('aligned', 40, 100)],
+        runs_quick=[('general', 500, 100), ('aligned', 150, 100), ('ledger', 150, 100)],
         runs_thorough=[('general', 6000, 200), ('aligned', 2000, 200), ('ledger', 2000, 200)],
         fields=(2, 3, 4, 5), extra_oracles=(),
         note='geometry invariant + statistics identities proved on the model + correspondence of stats/any_stats/chunk list + identity oracles on the implementation')
